@@ -459,40 +459,42 @@ func substringFunc(arg1, arg2, arg3 query) func(query, iterator) interface{} {
 		if start, ok = functionArgs(arg2).Evaluate(t).(float64); !ok {
 			panic(errors.New("substring() function first argument type must be number"))
 		}
+		// The result holds the characters at the (1-based) positions p with
+		// round(start) <= p < round(start) + round(length).
 		// fix https://github.com/antchfx/xpath/issues/109
-		start = math.Round(start)
-		if start > float64(len(m)) {
+		first := roundHalfUp(start)
+		last := math.Inf(1)
+		if arg3 != nil {
+			if length, ok = functionArgs(arg3).Evaluate(t).(float64); !ok {
+				panic(errors.New("substring() function second argument type must be number"))
+			}
+			last = first + roundHalfUp(length)
+		}
+		if math.IsNaN(first) || math.IsNaN(last) {
 			return ""
 		}
-		if arg3 == nil {
-			if start <= 0 {
-				return m
-			}
-			return m[int(start)-1:]
+		lo, hi := 1.0, float64(len(m))+1
+		if first > lo {
+			lo = first
 		}
-
-		if length, ok = functionArgs(arg3).Evaluate(t).(float64); !ok {
-			panic(errors.New("substring() function second argument type must be number"))
+		if last < hi {
+			hi = last
 		}
-		length = math.Round(length)
-		if length <= 0 {
+		if lo >= hi {
 			return ""
 		}
-		if length > float64(len(m)) {
-			length = float64(len(m))
-		}
-		if start < 0 {
-			length = length - math.Abs(start)
-			if length <= 1 {
-				return ""
-			}
-			return m[:int(length-1)]
-		}
-		if start == 0 {
-			return m[:int(length-1)]
-		}
-		return m[int(start-1):int(length+start-1)]
+		return m[int(lo)-1 : int(hi)-1]
 	}
+}
+
+// roundHalfUp rounds to the nearest integer, ties toward positive infinity
+// (the XPath round function).
+func roundHalfUp(f float64) float64 {
+	r := math.Floor(f)
+	if f-r >= 0.5 {
+		r++
+	}
+	return r
 }
 
 // substringIndFunc is XPath functions substring-before/substring-after function returns a part of a given string.
